@@ -557,3 +557,430 @@ theorem closePoll_app (s : List WrAns) {r : AReq} {st : CloseSt} {status : ExitS
         rw [closeP3_ext, h3]
         simp only [mapX, mapMid]
         exact closeP4_app s h hne
+
+abbrev appE (s : List WrAns) (e : Run.Env) : Run.Env := extE (XW s) e
+
+theorem fail_suf {n : Nat} {p : Bool} {r1 r' : AReq} {ha hb h' : HState} {e1 e' : Run.Env} {res1 res : HRes}
+    (hx : (if p = true then (r1, ha, e1, res1) else handlerPoll n r1 hb e1) = (r', h', e', res)) :
+    SufL e'.tr e1.tr := by
+  split at hx
+  · cases hx; exact SufL.refl _
+  · exact handlerPoll_suf _ _ _ _ hx
+
+theorem handlerPoll_app (s : List WrAns) : ∀ (fuel : Nat) (r : AReq) (h : HState) (e : Run.Env)
+    {r' : AReq} {h' : HState} {e' : Run.Env} {res : HRes},
+    handlerPoll fuel r h e = (r', h', e', res) → e'.tr.wr ≠ [] →
+    handlerPoll fuel r h (appE s e) = (r', h', appE s e', res) := by
+  intro fuel
+  induction fuel with
+  | zero => intro r h e r' h' e' res hh _; simp only [handlerPoll] at hh ⊢; cases hh; rfl
+  | succ n ih =>
+    intro r h e r' h' e' res hh hne
+    obtain ⟨ops, sub, ws, pr⟩ := h
+    cases ops with
+    | nil => simp only [handlerPoll] at hh ⊢; cases hh; rfl
+    | cons op rest =>
+      -- `fail`
+      have hfail : ∀ (r1 : AReq) (ws1 : List (Option Writer)) (e1 : Run.Env) (err : IoErr),
+          (if pr = true then (r1, (⟨rest, .fresh, ws1, pr⟩ : HState), e1, HRes.done (.error err))
+            else handlerPoll n r1 ⟨rest, .fresh, ws1, pr⟩ e1) = (r', h', e', res) →
+          (if pr = true then (r1, (⟨rest, .fresh, ws1, pr⟩ : HState), appE s e1, HRes.done (.error err))
+            else handlerPoll n r1 ⟨rest, .fresh, ws1, pr⟩ (appE s e1)) = (r', h', appE s e', res) := by
+        intro r1 ws1 e1 err hx
+        by_cases hp : pr = true
+        · simp only [hp, if_true] at hx ⊢; cases hx; rfl
+        · simp only [hp, Bool.false_eq_true, if_false] at hx ⊢; exact ih _ _ _ hx hne
+      cases op with
+      | ret st => simp only [handlerPoll] at hh ⊢; cases hh; rfl
+      | retErr err => simp only [handlerPoll] at hh ⊢; cases hh; rfl
+      | consume k => simp only [handlerPoll] at hh ⊢; exact ih _ _ _ hh hne
+      | setStream t =>
+        simp only [handlerPoll] at hh ⊢
+        cases hs : r.setStream t with
+        | none => rw [hs] at hh; simp only at hh ⊢; cases hh; rfl
+        | some r1 => rw [hs] at hh; simp only at hh ⊢; exact ih _ _ _ hh hne
+      | open_ t =>
+        simp only [handlerPoll] at hh ⊢
+        split at hh
+        · rename_i hc; rw [if_pos hc]; cases hh; rfl
+        · rename_i hc; rw [if_neg hc]; exact ih _ _ _ hh hne
+      | dropW i =>
+        simp only [handlerPoll] at hh ⊢
+        cases hg : ws.getD i none with
+        | none => rw [hg] at hh; simp only at hh ⊢; exact ih _ _ _ hh hne
+        | some w => rw [hg] at hh; simp only at hh ⊢; exact ih _ _ _ hh hne
+      | read k =>
+        simp only [handlerPoll] at hh ⊢
+        rcases hpi : r.pollInput (some k) e.mutex e.tr with ⟨r1, m1, t1, x⟩
+        rw [hpi] at hh
+        have hne1 : t1.wr ≠ [] := by
+          cases x with
+          | pending => simp only at hh; cases hh; exact hne
+          | panic z => simp only at hh; cases hh; exact hne
+          | ready a b => simp only at hh; exact ne_up hne (handlerPoll_suf _ _ _ _ hh)
+          | err z => simp only at hh; exact ne_up hne (fail_suf hh)
+        have hpa := pollInput_app s hpi hne1
+        rw [show (appE s e).mutex = e.mutex from rfl, show (appE s e).tr = appW s e.tr from rfl, hpa]
+        cases x with
+        | pending => simp only at hh ⊢; cases hh; rfl
+        | panic z => simp only at hh ⊢; cases hh; rfl
+        | ready a b => simp only at hh ⊢; exact ih _ _ _ hh hne
+        | err z => simp only at hh ⊢; exact hfail _ _ _ _ hh
+      | fill =>
+        simp only [handlerPoll] at hh ⊢
+        rcases hpi : r.pollInput none e.mutex e.tr with ⟨r1, m1, t1, x⟩
+        rw [hpi] at hh
+        have hne1 : t1.wr ≠ [] := by
+          cases x with
+          | pending => simp only at hh; cases hh; exact hne
+          | panic z => simp only at hh; cases hh; exact hne
+          | ready a b => simp only at hh; exact ne_up hne (handlerPoll_suf _ _ _ _ hh)
+          | err z => simp only at hh; exact ne_up hne (fail_suf hh)
+        have hpa := pollInput_app s hpi hne1
+        rw [show (appE s e).mutex = e.mutex from rfl, show (appE s e).tr = appW s e.tr from rfl, hpa]
+        cases x with
+        | pending => simp only at hh ⊢; cases hh; rfl
+        | panic z => simp only at hh ⊢; cases hh; rfl
+        | ready a b => simp only at hh ⊢; exact ih _ _ _ hh hne
+        | err z => simp only at hh ⊢; exact hfail _ _ _ _ hh
+      | readAll =>
+        simp only [handlerPoll] at hh ⊢
+        rcases hpi : r.pollInput (some 64) e.mutex e.tr with ⟨r1, m1, t1, x⟩
+        rw [hpi] at hh
+        have hne1 : t1.wr ≠ [] := by
+          cases x with
+          | pending => simp only at hh; cases hh; exact hne
+          | panic z => simp only at hh; cases hh; exact hne
+          | ready a b =>
+            cases a with
+            | zero => simp only at hh; exact ne_up hne (handlerPoll_suf _ _ _ _ hh)
+            | succ a => simp only at hh; exact ne_up hne (handlerPoll_suf _ _ _ _ hh)
+          | err z => simp only at hh; exact ne_up hne (fail_suf hh)
+        have hpa := pollInput_app s hpi hne1
+        rw [show (appE s e).mutex = e.mutex from rfl, show (appE s e).tr = appW s e.tr from rfl, hpa]
+        cases x with
+        | pending => simp only at hh ⊢; cases hh; rfl
+        | panic z => simp only at hh ⊢; cases hh; rfl
+        | ready a b =>
+          cases a with
+          | zero => simp only at hh ⊢; exact ih _ _ _ hh hne
+          | succ a => simp only at hh ⊢; exact ih _ _ _ hh hne
+        | err z => simp only at hh ⊢; exact hfail _ _ _ _ hh
+      | writeable =>
+        simp only [handlerPoll] at hh ⊢
+        rcases hpi : r.writeablePoll (sub == .writeableStarted) e.mutex e.tr with ⟨r1, b1, m1, t1, x⟩
+        rw [hpi] at hh
+        have hne1 : t1.wr ≠ [] := by
+          cases x with
+          | pending => simp only at hh; cases hh; exact hne
+          | panic z => simp only at hh; cases hh; exact hne
+          | ready => simp only at hh; exact ne_up hne (handlerPoll_suf _ _ _ _ hh)
+          | err z => simp only at hh; exact ne_up hne (fail_suf hh)
+        have hpa := writeablePoll_app s hpi hne1
+        rw [show (appE s e).mutex = e.mutex from rfl, show (appE s e).tr = appW s e.tr from rfl, hpa]
+        cases x with
+        | pending => simp only at hh ⊢; cases hh; rfl
+        | panic z => simp only at hh ⊢; cases hh; rfl
+        | ready => simp only at hh ⊢; exact ih _ _ _ hh hne
+        | err z => simp only at hh ⊢; exact hfail _ _ _ _ hh
+      | flush i =>
+        simp only [handlerPoll] at hh ⊢
+        cases hg : ws.getD i none with
+        | none => rw [hg] at hh; simp only at hh ⊢; exact ih _ _ _ hh hne
+        | some w =>
+          rw [hg] at hh
+          simp only at hh ⊢
+          rcases hpf : w.pollFlush i e.mutex e.tr with ⟨w1, m1, t1, x⟩
+          rw [hpf] at hh
+          have hpa := pollFlush_app s hpf
+          rw [show (appE s e).mutex = e.mutex from rfl, show (appE s e).tr = appW s e.tr from rfl, hpa]
+          cases x with
+          | pending => simp only at hh ⊢; cases hh; rfl
+          | panic z => simp only at hh ⊢; cases hh; rfl
+          | ready k => simp only at hh ⊢; exact ih _ _ _ hh hne
+          | err z => simp only at hh ⊢; exact hfail _ _ _ _ hh
+      | writeAll i data =>
+        simp only [handlerPoll] at hh ⊢
+        cases hg : ws.getD i none with
+        | none => rw [hg] at hh; simp only at hh ⊢; exact ih _ _ _ hh hne
+        | some w =>
+          rw [hg] at hh
+          simp only at hh ⊢
+          cases sub with
+          | writeRest rd =>
+            simp only at hh ⊢
+            by_cases hc : (rd : Bytes).isEmpty = true
+            · simp only [hc, if_true] at hh ⊢; exact ih _ _ _ hh hne
+            · simp only [hc, Bool.false_eq_true, if_false] at hh ⊢
+              rcases hpw : w.pollWrite i rd e.mutex e.tr with ⟨w1, m1, t1, x⟩
+              rw [hpw] at hh
+              have hne1 : t1.wr ≠ [] := by
+                cases x with
+                | pending => simp only at hh; cases hh; exact hne
+                | panic z => simp only at hh; cases hh; exact hne
+                | ready k =>
+                  cases k with
+                  | zero => simp only at hh; exact ne_up hne (fail_suf hh)
+                  | succ k => simp only at hh; exact ne_up hne (handlerPoll_suf _ _ _ _ hh)
+                | err z => simp only at hh; exact ne_up hne (fail_suf hh)
+              have hpa := pollWrite_app s hpw hne1
+              rw [show (appE s e).mutex = e.mutex from rfl, show (appE s e).tr = appW s e.tr from rfl, hpa]
+              cases x with
+              | pending => simp only at hh ⊢; cases hh; rfl
+              | panic z => simp only at hh ⊢; cases hh; rfl
+              | ready k =>
+                cases k with
+                | zero => simp only at hh ⊢; exact hfail _ _ _ _ hh
+                | succ k => simp only at hh ⊢; exact ih _ _ _ hh hne
+              | err z => simp only at hh ⊢; exact hfail _ _ _ _ hh
+          | _ =>
+            simp only at hh ⊢
+            by_cases hc : (data : Bytes).isEmpty = true
+            · simp only [hc, if_true] at hh ⊢; exact ih _ _ _ hh hne
+            · simp only [hc, Bool.false_eq_true, if_false] at hh ⊢
+              rcases hpw : w.pollWrite i data e.mutex e.tr with ⟨w1, m1, t1, x⟩
+              rw [hpw] at hh
+              have hne1 : t1.wr ≠ [] := by
+                cases x with
+                | pending => simp only at hh; cases hh; exact hne
+                | panic z => simp only at hh; cases hh; exact hne
+                | ready k =>
+                  cases k with
+                  | zero => simp only at hh; exact ne_up hne (fail_suf hh)
+                  | succ k => simp only at hh; exact ne_up hne (handlerPoll_suf _ _ _ _ hh)
+                | err z => simp only at hh; exact ne_up hne (fail_suf hh)
+              have hpa := pollWrite_app s hpw hne1
+              rw [show (appE s e).mutex = e.mutex from rfl, show (appE s e).tr = appW s e.tr from rfl, hpa]
+              cases x with
+              | pending => simp only at hh ⊢; cases hh; rfl
+              | panic z => simp only at hh ⊢; cases hh; rfl
+              | ready k =>
+                cases k with
+                | zero => simp only at hh ⊢; exact hfail _ _ _ _ hh
+                | succ k => simp only at hh ⊢; exact ih _ _ _ hh hne
+              | err z => simp only at hh ⊢; exact hfail _ _ _ _ hh
+
+abbrev appC (s : List WrAns) (c : Conn) : Conn := extC (XW s) c
+
+/-- **one phase transition** -/
+theorem stepConn_app (s : List WrAns) (c : Conn) (hne : (stepConn c).conn.env.tr.wr ≠ []) :
+    stepConn (appC s c) = mapStep (XW s) (stepConn c) := by
+  obtain ⟨phase, env, scripts, stop⟩ := c
+  cases phase with
+  | finished => rfl
+  | handler r h =>
+    simp only [stepConn, extC, extE] at hne ⊢
+    rcases hhp : handlerPoll (1000 + env.tr.input.length * 4 + (env.segs.map (·.2.length)).sum * 4 + r.sp.cap * 4 + scriptCost h)
+      r h env with ⟨r1, h1, e1, x⟩
+    rw [hhp] at hne
+    have hne1 : e1.tr.wr ≠ [] := by
+      cases x with
+      | pending => exact hne
+      | panic z => exact hne
+      | done res =>
+        cases res with
+        | ok st => exact hne
+        | error y => simp only at hne; split at hne <;> exact hne
+    have hpa := handlerPoll_app s _ _ _ _ hhp hne1
+    have e0 : (ext (XW s) env.tr).input = env.tr.input := rfl
+    rw [e0]
+    rw [show ({ tr := ext (XW s) env.tr, mutex := env.mutex, segs := env.segs } : Run.Env) = appE s env from rfl, hpa]
+    cases x with
+    | pending => rfl
+    | panic z => rfl
+    | done res =>
+      cases res with
+      | ok st => rfl
+      | error y => simp only [mapStep]; split <;> rfl
+  | closing r cs status alive =>
+    simp only [stepConn, extC, extE] at hne ⊢
+    rcases hcp : closePoll r cs status alive env.mutex env.tr with ⟨r1, cs1, m1, t1, x⟩
+    rw [hcp] at hne
+    have hne1 : t1.wr ≠ [] := by cases x <;> exact hne
+    rw [closePoll_app s hcp hne1]
+    cases x <;> rfl
+  | parseReq rp sub =>
+    cases stop with
+    | true => rfl
+    | false =>
+      cases sub with
+      | start =>
+        simp only [stepConn, extC, extE, Bool.false_eq_true, if_false] at hne ⊢
+        rcases rp.parse [] with ⟨rp1, oy⟩
+        cases oy <;> rfl
+      | reading =>
+        simp only [stepConn, extC, extE, Bool.false_eq_true, if_false] at hne ⊢
+        rw [read_app]
+        rcases env.tr.read rp.free with ⟨t1, x⟩
+        cases x with
+        | pending => rfl
+        | ready y =>
+          cases y with
+          | error e => rfl
+          | ok bs =>
+            cases bs with
+            | nil => rfl
+            | cons b bs =>
+              simp only
+              rcases rp.parse (b :: bs) with ⟨rp1, oy⟩
+              cases oy <;> rfl
+      | writing rest done =>
+        simp only [stepConn, extC, extE, Bool.false_eq_true, if_false] at hne ⊢
+        rcases hw : writeAllLoop (rest.length + 1) rest env.tr with ⟨rest1, t1, x⟩
+        rw [hw] at hne
+        have hne1 : t1.wr ≠ [] := by
+          cases x with
+          | ready =>
+            simp only at hne
+            cases done with
+            | false => exact hne
+            | true =>
+              simp only [Bool.not_true, Bool.false_eq_true, if_false] at hne
+              cases hsp : rp.intoStreamParser with
+              | error e => rw [hsp] at hne; exact hne
+              | ok sp => rw [hsp] at hne; cases scripts with
+                | nil => exact hne
+                | cons sc ss => exact hne
+          | _ => exact hne
+        rw [writeAllLoop_app s _ _ _ hw hne1]
+        cases x with
+        | ready =>
+          simp only
+          cases done with
+          | false => rfl
+          | true =>
+            simp only [Bool.not_true, Bool.false_eq_true, if_false]
+            cases rp.intoStreamParser with
+            | error e => rfl
+            | ok sp =>
+              cases scripts with
+              | nil => rfl
+              | cons sc ss => rfl
+        | _ => rfl
+
+/-- **one poll** -/
+theorem pollConn_app (s : List WrAns) : ∀ (fuel : Nat) (c : Conn), (pollConn fuel c).1.env.tr.wr ≠ [] →
+    pollConn fuel (appC s c) = (appC s (pollConn fuel c).1, (pollConn fuel c).2)
+  | 0, c, _ => rfl
+  | fuel + 1, c, hne => by
+    rw [pollConn_succ] at hne
+    rw [pollConn_succ, pollConn_succ]
+    cases hst : stepConn c with
+    | halt c1 r =>
+      rw [hst] at hne
+      rw [stepConn_app s c (by rw [hst]; exact hne), hst]
+      rfl
+    | next c1 =>
+      rw [hst] at hne
+      have hne' : (pollConn fuel c1).1.env.tr.wr ≠ [] := hne
+      have hne1 : c1.env.tr.wr ≠ [] := ne_up hne' (pollConn_suf fuel c1)
+      rw [stepConn_app s c (by rw [hst]; exact hne1), hst]
+      simp only [mapStep, Step.run]
+      exact pollConn_app s fuel c1 hne'
+
+/-- **a run of the task** that ends with write answers left does not depend on what is appended to the script -/
+theorem runTask_app (s : List WrAns) : ∀ (fuel : Nat) (c : Conn) (n : Nat) (sa : Option Nat),
+    (runTask fuel c n sa).1.env.tr.wr ≠ [] →
+    runTask fuel (appC s c) n sa = (appC s (runTask fuel c n sa).1, (runTask fuel c n sa).2)
+  | 0, c, n, sa, _ => rfl
+  | fuel + 1, c, n, sa, hne => by
+    rw [runTask_succ'] at hne
+    rw [runTask_succ', runTask_succ', prePoll_ext,
+      show connFuel (extC (XW s) (prePoll c n sa)) = connFuel (prePoll c n sa) from rfl]
+    rcases hpc : pollConn (connFuel (prePoll c n sa)) (prePoll c n sa) with ⟨c1, r⟩
+    rw [hpc] at hne
+    have hsuf : SufL (afterPoll fuel n sa (c1, r)).1.env.tr c1.env.tr := by
+      have h1 := runTask_suf (fuel + 1) c n sa
+      cases r with
+      | finished => exact SufL.refl _
+      | panic z => exact SufL.refl _
+      | pending =>
+        simp only [afterPoll]
+        split
+        · exact runTask_suf _ _ _ _
+        · have hrel := release_wf c1.env
+          generalize c1.env.release = y at hrel
+          obtain ⟨env, any⟩ := y
+          simp only at hrel ⊢
+          have h2 : SufL env.tr c1.env.tr := SufL.of_eq hrel.1 hrel.2
+          split
+          · exact (runTask_suf _ _ _ _).trans h2
+          · cases sa with
+            | none => exact h2
+            | some k =>
+              simp only
+              split
+              · exact (runTask_suf _ _ _ _).trans h2
+              · exact h2
+    have hne1 : c1.env.tr.wr ≠ [] := ne_up hne hsuf
+    have hpa := pollConn_app s (connFuel (prePoll c n sa)) (prePoll c n sa) (by rw [hpc]; exact hne1)
+    rw [hpa, hpc]
+    simp only
+    cases r with
+    | finished => rfl
+    | panic z => rfl
+    | pending =>
+      simp only [afterPoll] at hne ⊢
+      have hwk : (extC (XW s) c1).env.tr.woken = c1.env.tr.woken := rfl
+      rw [hwk]
+      split
+      · rename_i hc
+        rw [if_pos hc] at hne
+        exact runTask_app s fuel c1 (n + 1) sa hne
+      · rename_i hc
+        rw [if_neg hc] at hne
+        have hrel : (extC (XW s) c1).env.release = (extE (XW s) c1.env.release.1, c1.env.release.2) :=
+          release_ext (XW s) c1.env
+        rw [hrel]
+        generalize c1.env.release = y at hne ⊢
+        obtain ⟨env, any⟩ := y
+        simp only at hne ⊢
+        have hwk2 : (extE (XW s) env).tr.woken = env.tr.woken := rfl
+        rw [hwk2]
+        split
+        · rename_i hc2
+          rw [if_pos hc2] at hne
+          exact runTask_app s fuel { c1 with env := env } (n + 1) sa hne
+        · rename_i hc2
+          rw [if_neg hc2] at hne
+          cases sa with
+          | none => rfl
+          | some k =>
+            simp only at hne ⊢
+            split
+            · rename_i hc3
+              have hc' : (decide (k > n) && !c1.stop) = true := hc3
+              rw [if_pos hc'] at hne ⊢
+              exact runTask_app s fuel { c1 with env := env } k (some k) hne
+            · rename_i hc3
+              have hc' : ¬ (decide (k > n) && !c1.stop) = true := hc3
+              rw [if_neg hc']
+              rfl
+
+theorem feed_app (s : List WrAns) (c : Conn) (w : Bytes) : feed (appC s c) w = appC s (feed c w) := rfl
+
+/-- **a closed-loop run** that ends `STALL` with write answers left does not depend on what is appended to the script -/
+theorem closedLoop_app (s : List WrAns) (fuel : Nat) : ∀ (ws : List Bytes) (c : Conn) (n : Nat),
+    (closedLoop fuel ws c n).1.env.tr.wr ≠ [] →
+    closedLoop fuel ws (appC s c) n = (appC s (closedLoop fuel ws c n).1, (closedLoop fuel ws c n).2)
+  | [], c, n, hne => runTask_app s fuel c n none hne
+  | w :: ws, c, n, hne => by
+    simp only [closedLoop] at hne ⊢
+    rcases hr : runTask fuel c n none with ⟨c1, fin⟩
+    rw [hr] at hne
+    simp only at hne
+    by_cases hf : fin = "STALL"
+    · rw [if_pos hf] at hne
+      have hne1 : c1.env.tr.wr ≠ [] :=
+        ne_up hne ((closedLoop_suf fuel ws (feed c1 w) (n + 1000)).trans (SufL.of_eq rfl rfl))
+      have h1 := runTask_app s fuel c n none (by rw [hr]; exact hne1)
+      rw [h1, hr]
+      simp only [if_pos hf]
+      rw [feed_app]
+      exact closedLoop_app s fuel ws (feed c1 w) (n + 1000) hne
+    · rw [if_neg hf] at hne
+      have h1 := runTask_app s fuel c n none (by rw [hr]; exact hne)
+      rw [h1, hr]
+      simp only [if_neg hf]
+
+end Fcgi.E2E
